@@ -223,14 +223,27 @@ def r06e(P, R):
         if ifs:
             e = ifs[-1].get("else")
             last_else = branch_val(e) if e else None
+        first_bindings = set()
+        for cl in subnodes(fi):
+            if cl.get("k") == "Closure" and cl["params"]:
+                bs = [b for b in subnodes(cl["params"][0]) if b.get("k") == "Binding"]
+                if bs:
+                    first_bindings.add(bs[0]["local"])
+        kind_locals = set()
+        for cl in subnodes(fi):
+            if cl.get("k") == "Closure" and cl["params"]:
+                for b in subnodes(cl["params"][0]):
+                    if b.get("k") == "Binding" and "FileKind" in norm(b.get("t", "")):
+                        kind_locals.add(b["name"])
+
         def cond_locals(ifn):
             return {x.get("name") for x in subnodes(ifn["cond"]) if x.get("k") == "Path" and "local" in x}
-        ok_schema = any(any(a_[0] == "def" and a_[1].endswith("FileKind::Schema") for a_ in c) and v.get("k") == "Path" and v.get("name") == "idx"
-                        and cond_locals(ifn) == {"kind"} for (c, v), ifn in zip(rows, ifs))
+        ok_schema = any(any(a_[0] == "def" and a_[1].endswith("FileKind::Schema") for a_ in c) and v.get("k") == "Path" and v.get("local") in first_bindings
+                        and cond_locals(ifn) <= kind_locals and cond_locals(ifn) for (c, v), ifn in zip(rows, ifs))
         R.check("R06-e", "index-table:schema:%d" % j, ok_schema, "schema file k -> sources[k]",
                 "the row `kind == Schema -> idx` of the index table is missing or its condition also admits other files (only schema "
                 "files, which come first in the store, may keep their own index)", loc=rg.loc())
-        uses_current = any(x.get("k") == "Path" and x.get("name") == "file_index" for x in subnodes(fi))
+        uses_current = any(c_[0] == "loop" for c_ in enclosing_contexts(rg, i))
         if uses_current:
             R.check("R06-e", "index-table:operation-row:%d" % j, any((call_name(v) or "").endswith("FileStore::schema_len") for c, v in rows),
                     "the operation file has its own row -> schema_len()",
